@@ -52,6 +52,10 @@ pub enum TermCase {
 
 pub struct C08;
 
+/// Locked fortresses in which BOTH sides have exactly one legal move, for ever (each king shuttles between two
+/// squares): every node of every search of them is an only-move node, however deep. Validated by `selftest`.
+pub const LOCKED: &[&str] = &["4b2k/3pPp1p/3P1P1P/8/8/p1p1p3/P1PpP3/K2B4 w - - 0 1", "k2b4/p1pPp3/P1P1P3/8/8/3p1p1p/3PpP1P/4B2K b - - 0 1"];
+
 impl Tiny {
     pub fn build(&self) -> Option<Pos> {
         let mut b = [b'.'; 64];
@@ -476,9 +480,14 @@ impl C08 {
                 }
                 if got.is_none() {
                     let pan = s.panicked();
+                    let died = !s.alive();
+                    let err = s.stderr_text();
                     s.kill();
                     if let Some(p) = pan {
                         return Err(Fail::new("search-panics", format!("script {:?}: {}", lines, p)));
+                    }
+                    if died {
+                        return Err(Fail::new("search-panics", format!("script {:?}: the engine process died during `{}` without answering ({})", lines, l, err.chars().take(300).collect::<String>())));
                     }
                     ev.inconclusive("scripted depth-limited search did not end within 30 s");
                     return Ok(());
@@ -500,7 +509,7 @@ impl Prop for C08 {
     }
 
     fn rule(&self) -> String {
-        "Cases: (a) stateful histories of depth-limited searches (limit 1-5) sharing one table while the game navigates: same position again, sibling, transposition by out-and-back moves of both sides, child, parent - so a deeper exact root entry often pre-exists; in-process and (1 in 5) through the real binary. Oracle: no `info depth` above the limit (decisive, no timeout involved), no panic; a 30 s watchdog without that symptom is only counted as inconclusive. (b) generated tiny positions (kings + 0-4 mutually blocked pawn pairs + 0-1 minor piece) and the curated cages searched WITHOUT limit for 0.3-1.5 s in-process (a watchdog thread plays `stop`) or through the binary (`go infinite`, `isready`, `stop`, `quit`): no panic, `info depth` strictly increasing and <= 255, the search returns within 2 s of the stop with a legal move, the binary answers readyok while searching, does not flood, exits 0; then the same positions with fixed limits 33, 34, 64, 128, 255 (same code path, independent of machine speed); three bare-king positions are searched to the depth ceiling and then again at the end of a 120-320-ply game record, where the ceiling lies below the cached depth (`go depth 250`, `go infinite`, `go depth 3` must end with a legal move; a depth-limited one that has not answered after 8 s while the process consumes no CPU time - measured from /proc over 1.5 s - is not searching any more but waiting to be stopped, which is the violation `never running on until stopped` even when the limit lies above the engine's depth ceiling); `info depth 0` is a wrapped counter. A search that does not return after the stop hangs its shard: the parent reports that case as the violation. evaluations = searches judged. Non-trivial: (a) the limit is below a depth this position was searched to before in the same table; (b) an iteration deeper than 32 was reached; distinct by script / position.".into()
+        "Cases: (a) stateful histories of depth-limited searches (limit 1-5) sharing one table while the game navigates: same position again, sibling, transposition by out-and-back moves of both sides, child, parent - so a deeper exact root entry often pre-exists; in-process and (1 in 5) through the real binary. Oracle: no `info depth` above the limit (decisive, no timeout involved), no panic; a 30 s watchdog without that symptom is only counted as inconclusive. (b) generated tiny positions (kings + 0-4 mutually blocked pawn pairs + 0-1 minor piece) and the curated cages searched WITHOUT limit for 0.3-1.5 s in-process (a watchdog thread plays `stop`) or through the binary (`go infinite`, `isready`, `stop`, `quit`): no panic, `info depth` strictly increasing and <= 255, the search returns within 2 s of the stop with a legal move, the binary answers readyok while searching, does not flood, exits 0; then the same positions with fixed limits 33, 34, 64, 128, 255 (same code path, independent of machine speed); three bare-king positions are searched to the depth ceiling and then again at the end of a 120-320-ply game record, where the ceiling lies below the cached depth (`go depth 250`, `go infinite`, `go depth 3` must end with a legal move; a depth-limited one that has not answered after 8 s while the process consumes no CPU time - measured from /proc over 1.5 s - is not searching any more but waiting to be stopped, which is the violation `never running on until stopped` even when the limit lies above the engine's depth ceiling); two locked fortresses in which both sides have exactly one legal move for ever are searched with `go depth 1`, `3`, `2` (after one move) and `200` through the binary and must answer (no crash, no depth above the limit); `info depth 0` is a wrapped counter. A search that does not return after the stop hangs its shard: the parent reports that case as the violation. evaluations = searches judged. Non-trivial: (a) the limit is below a depth this position was searched to before in the same table; (b) an iteration deeper than 32 was reached; distinct by script / position.".into()
     }
 
     fn assumptions(&self) -> Vec<String> {
@@ -551,6 +560,32 @@ impl Prop for C08 {
             }
             let case = TermCase::DeepThenLong { fen: fen.to_string(), plies };
             ctx.note_inflight("C08", &case);
+            if let Err(f) = Prop::check(self, ctx, &case, ev) {
+                report(case, f);
+                return;
+            }
+        }
+        for f in LOCKED {
+            i += 1;
+            if !ctx.owns(i) {
+                continue;
+            }
+            let p = Pos::from_fen(f).unwrap();
+            let first = p.legal()[0].uci();
+            let case = TermCase::Script {
+                lines: vec![
+                    format!("position fen {}", f),
+                    "go depth 1".into(),
+                    format!("position fen {}", f),
+                    "go depth 3".into(),
+                    format!("position fen {} moves {}", f, first),
+                    "go depth 2".into(),
+                    format!("position fen {}", f),
+                    "go depth 200".into(),
+                ],
+            };
+            ctx.note_inflight("C08", &case);
+            ev.class("locked_fortress_scripts");
             if let Err(f) = Prop::check(self, ctx, &case, ev) {
                 report(case, f);
                 return;
